@@ -45,8 +45,13 @@ REDUCED = ["u8", "u16", "i32", "u64", "i24", "u48", "f32", "char", "wchar", "e8"
 DYNAMIC_UNIONS = [["d_char", "u16"], ["d_u16", "u32"], ["u8", "d_char"], ["u32", "z_char"]]
 
 
+# fixed-size unions for the round-trip pipelines (the member-coherence clauses live in C11): ties between an anonymous
+# struct with holes (padding, partly used bit-field unit) and a plain member, in both declaration orders
+FIXED_UNIONS = [["anon_s", "u32"], ["u32", "anon_s"], ["anon_bits", "u16"], ["u16", "anon_bits"], ["a_u16_3", "u32", "u8"], ["named_s", "u16"]]
+
+
 def dynamic_unions():
-    return [Program(m, e, a, union=True) for m in DYNAMIC_UNIONS for e in ("<", ">") for a in (False, True)]
+    return [Program(m, e, a, union=True) for m in DYNAMIC_UNIONS + FIXED_UNIONS for e in ("<", ">") for a in (False, True)]
 
 
 def sandwiches():
@@ -55,7 +60,7 @@ def sandwiches():
     ps = []
     i = 0
     for k in ("b8_part", "b16_part"):
-        for q in ("inner", "anon_s", "named_u", "u8", "d_char", "a_u16_3", "e8"):
+        for q in ("inner", "anon_s", "named_u", "u8", "d_char", "a_u16_3", "e8", "b8_whole", "b32_whole", "bf32_whole", "bi8"):
             for al in (False, True):
                 ps.append(Program([k, q, k], "<>"[i % 2], al))
                 i += 1
@@ -124,7 +129,7 @@ def select(ps, pred):
     return [p for p in ps if pred(p)]
 
 
-BIT_KINDS = {k for k in KINDS if k.startswith("b") and k[1:2].isdigit() or k in ("bi8", "be8")}
+BIT_KINDS = {k for k in KINDS if k.startswith("b") and k[1:2].isdigit() or k in ("bi8", "be8", "bf32_whole")}
 ARRAY_KINDS = {k for k in KINDS if k.startswith(("a_", "d_", "z_", "eof_", "a2d"))}
 PTR_KINDS = {"ptr", "ptrs", "a_ptr_2"}
 
